@@ -289,6 +289,8 @@ impl<'s> Scheduler<'s> {
                 return Ok((0, results));
             }
             self.check_ready()?;
+            #[cfg(feature = "verif")]
+            crate::verif::point("sched:pop");
             // schedule coroutines
             if let Some(mut coroutine) = self.ready.pop() {
                 let co_id = coroutine.id;
